@@ -135,6 +135,9 @@ def generate(rng, i, tier):
                 opsl[-1]["torn"] = rng.choice([0.0, 0.5, 0.9, 1.0])
         elif k == "remove":
             opsl.append({"op": "remove", "group": g})
+        elif rng.random() < 0.4:
+            # the caller goes on with the OTHER of two long-lived instances
+            opsl.append({"op": "swap"})
         else:
             opsl.append({"op": "restart"})
     return {"seed": rng.getrandbits(32), "listdir_salt": rng.choice([None, rng.getrandbits(16)]), "ops": opsl, "clock": rng.choice(["frozen", "frozen", "tick", "jumps"]), "log": rng.choice(["error"] * 5 + ["debug", "info"])}
@@ -313,6 +316,7 @@ def execute(sc):
     seams.reset(sc["seed"], listdir_salt=sc.get("listdir_salt"))
     with W.World(log_level=sc.get("log", "error")):
         cs = ops.new_csvpaths()
+        cs_alt = None
         model = {}
         for step, op in enumerate(sc["ops"]):
             k = op["op"]
@@ -381,6 +385,9 @@ def execute(sc):
                     cs.paths_manager.remove_named_paths(g)
                 del model[g]
                 cls.append(g)
+            elif k == "swap":
+                cs, cs_alt = (cs_alt if cs_alt is not None else ops.new_csvpaths()), cs
+                out.fault("instance_swap")
             else:
                 cs = ops.new_csvpaths()
                 out.fault("restart")
